@@ -371,6 +371,14 @@ func genJoin(g *G) *Op {
 		if !p.PoolParams.UseOracle {
 			shares = sdkmath.ZeroInt()
 		}
+		// the requested share amount is a lower bound the sender states: mostly the minimum, sometimes about what
+		// the deposit is worth, sometimes (far) more than that
+		switch g.Int("singleshares", 0, 5) {
+		case 0:
+			shares = p.TotalShares.Amount.Mul(frac).QuoRaw(1_000_000).QuoRaw(int64(len(p.PoolAssets)))
+		case 1:
+			shares = p.TotalShares.Amount.Mul(frac).QuoRaw(1_000_000).MulRaw(int64(g.Int("singleinfl", 1, 10)))
+		}
 	} else {
 		slack := int64(g.Int("joinslack", 100, 130))
 		if g.Int("tight", 0, 6) == 0 {
@@ -609,6 +617,25 @@ func genLPClosePositions(g *G) *Op {
 		}
 	}
 	return &Op{Signer: g.W.Bot, Kind: "leveragelp.close_positions", Msg: msg}
+}
+
+// genSendToBurn: an explicit burn – the owner sends tokens to the zero address, from where the burner module
+// destroys them at the end of its epoch (only denoms that have bank metadata; others just stay there).
+func genSendToBurn(g *G) *Op {
+	u := g.User()
+	ds := g.W.Scenario.Denoms
+	d := ds[g.Pick("burndenom", len(ds))]
+	amt := g.ModestAmount("burnamt", sdkmath.NewInt(1_000_000_000))
+	coins := sdk.NewCoins(sdk.NewCoin(d, amt))
+	if g.Bool("burnmulti") {
+		// several denoms at once: the burner then has more than one denom to destroy at the same epoch end
+		for _, d2 := range ds {
+			if d2 != d && g.Bool("burnalso") {
+				coins = coins.Add(sdk.NewCoin(d2, g.ModestAmount("burnamt2", sdkmath.NewInt(1_000_000_000))))
+			}
+		}
+	}
+	return &Op{Signer: u, Kind: "bank.send_to_burn", Msg: &banktypes.MsgSend{FromAddress: u.Addr.String(), ToAddress: sdk.AccAddress(make([]byte, 20)).String(), Amount: coins}}
 }
 
 // ---------------------------------------------------------------- perpetual
@@ -1193,7 +1220,7 @@ func genExecuteOrders(g *G) *Op {
 var AllOps = map[string]func(*G) *Op{
 	"amm.swap_in": genSwapIn, "amm.swap_out": genSwapOut, "amm.swap_in_2hop": genSwapIn2, "amm.swap_out_2hop": genSwapOut2,
 	"amm.swap_by_denom": genSwapByDenom, "amm.join": genJoin, "amm.exit": genExit,
-	"bank.send_to_pool": genSendToPool, "bank.send": genSendUser,
+	"bank.send_to_pool": genSendToPool, "bank.send": genSendUser, "bank.send_to_burn": genSendToBurn,
 	"stablestake.bond": genBond, "stablestake.unbond": genUnbond,
 	"leveragelp.open": genLPOpen, "leveragelp.close": genLPClose, "leveragelp.update_stop_loss": genLPUpdateStopLoss,
 	"leveragelp.claim_rewards": genLPClaim, "leveragelp.close_positions": genLPClosePositions,
